@@ -269,6 +269,7 @@ type AggObl struct {
 	Path    string   `json:"failing_path,omitempty"`
 	Output  string   `json:"output,omitempty"`
 	failing *Obligation
+	sample  *Obligation // a non-trivial instance (the one with the most path facts), for the cross-solver check
 }
 
 // aggregate merges per-path instances of the same named obligation: proved iff proved on all paths.
@@ -285,6 +286,9 @@ func aggregate(obls []*Obligation) []*AggObl {
 		}
 		a.Paths++
 		a.Ms += o.Ms
+		if o.Goal != "true" && (a.sample == nil || nodeN(o.pre) > nodeN(a.sample.pre)) {
+			a.sample = o
+		}
 		if o.Solver != "" && (a.Solver == "" || a.Solver == "syntactic") {
 			a.Solver = o.Solver
 		}
